@@ -266,6 +266,43 @@ func (c *Ctx) stateTranslation(st *ssa.Store, resV ssa.Value, batch bool, succ, 
 		}
 		v = ex.Tuple
 	}
+	// a read-only package-level table from results to states: table[result of the same position]
+	if lk, isLookup := v.(*ssa.Lookup); isLookup {
+		ld, ok := lk.X.(*ssa.UnOp)
+		if !ok {
+			return "the state is read from a map that is not a package-level table"
+		}
+		g, ok := ld.X.(*ssa.Global)
+		if !ok {
+			return "the state is read from a map that is not a package-level table"
+		}
+		entries, ok := c.globalMapConstEntries(g)
+		if !ok {
+			return "the state is read from " + g.Name() + ", which is not an init-only table of constants"
+		}
+		if !batch && lk.Index != resV {
+			return "the table is not indexed by the service's result"
+		}
+		if batch {
+			root, idx, ok := elemLoad(lk.Index)
+			_, ridx, ok2 := elemLoad(fa.X)
+			if !ok || root != resV || !ok2 || ridx != idx {
+				return "the state of response j is read from the table at result i"
+			}
+		}
+		if e, has := entries[succ]; !has || e != pbSucc {
+			return "the table does not map ResultSucceeded to SUCCEEDED"
+		}
+		if pbSucc == 0 {
+			return "a result missing from the table reads as SUCCEEDED"
+		}
+		for k, e := range entries {
+			if k != succ && e == pbSucc {
+				return "the table maps a result other than ResultSucceeded to SUCCEEDED"
+			}
+		}
+		return ""
+	}
 	call, ok := v.(*ssa.Call)
 	if !ok || call.Common().IsInvoke() || call.Common().StaticCallee() == nil {
 		return "the state written is neither a constant nor the result of a translation function: " + an.Term(st.Val)
